@@ -15,7 +15,7 @@
 //!            pn.<day>.<k>-<v>+…          rows signed by the peer, written through add_nodes (synchronised batch)
 //!            dl.<day>.<k>+<k>…           local deletion        dn.<day>.<k>+…   deletion records signed by the peer
 //!            ed.<k>-<k>                   reference signed by the peer (add_edges)
-//!            rm.<id>  new room            wr.<id>  generic write       rc  daily-log recomputation
+//!            rm.<id>  new room (rs.<id>: through the mutation stream)     wr.<id>  generic write       rc  daily-log recomputation
 //! points:    begin | stmt.<i>.<j> | marks | sqlmarks.<j> | commit | commithook        (fault=: statement error)
 //!            gb.<i> | ga.<i> | stmt.<i>.<j> | marks | sqlmarks.<j> | commit | acommit | ack   (crash=: process abort)
 //! observation of a batch / recompute line:
@@ -401,7 +401,7 @@ fn workloads(tier: &str) -> Vec<(Vec<&'static str>, usize)> {
         (
             vec![
                 "pm.0.1-1+2-1,rm.1,pn.0.3-1",
-                "pm.1.1-2+4-1,dl.1.2,pn.1.5-1+6-1,ed.1-3,wr.1,rc,ps.1.7-1,dn.2.3",
+                "pm.1.1-2+4-1,dl.1.2,pn.1.5-1+6-1,ed.1-3,wr.1,rc,ps.1.7-1,dn.2.3,rs.2",
                 "wr.2,pm.2.8-1",
             ],
             1,
@@ -612,7 +612,7 @@ fn gen13(seed: u64, n: usize, out: &str) {
                     }
                     5 => {
                         stmts.push(1);
-                        msgs.push(format!("rm.{}", next_aux));
+                        msgs.push(format!("{}.{}", if g.chance(1, 2) { "rm" } else { "rs" }, next_aux));
                         next_aux += 1;
                     }
                     6 => {
